@@ -268,6 +268,13 @@ def run(cx, out):
         # the fake-specialisation table decides which types take the bulk path (shared with C01 R01.3)
         from . import c01
         c01.check_type_info(out, facts)
+    if cx.tier == 'quick':
+        # the sink of the configuration without std (`impl Output for Vec<u8>`) exists only there
+        cx.need(['B'])
+        fb = cx.facts('B')
+        unit(out, fb)
+        check_defaults(out, fb)
+        check_sinks(out, fb)
     # derived impls: the entry points the derive macros generate (single-field forwarding fast path, enum encoders)
     from . import c05 as _c05
     from .. import facts as _fm
